@@ -218,6 +218,20 @@ CLAIMS.update({
             'TLA+ reader/writer composition in TLC, spec->code replay through concretiser and tokenizer, trace validation', 'DESIGN.md section 5 C11', 'crtf'),
 })
 
+CLAIMS.update({
+    'C03': ('model_checking',
+            'PARTIAL. Overlap.tla states consequences of "the value is the area of shape /\\ pixel" that can be decided with integers: a sound '
+            'rational bracket per pixel (sub-cells with four member corners are inside; sub-cells whose centre lies outside the shape inflated '
+            'by the sub-cell size are outside), exactly 1/0 for pixels without a mixed sub-cell, finiteness and [0,1]; TLC checks the bracket '
+            'for internal consistency on circle/ellipse families; every value of to_mask(\'exact\') for dyadic circles/ellipses is validated '
+            'by Trace_Overlap.tla, together with additivity under refinement of the kernel grid, equality under re-description of the same '
+            'ellipse and sum = analytic area.',
+            'The 1e-8 agreement of each value with an independently computed area is NOT decided: an error smaller than the bracket (~ mixed '
+            'sub-cells / 16) that is also additive, symmetric and area-preserving would pass. Open finding: the ellipse kernel is wrong at '
+            'degenerate alignments (Cython source cannot be rebuilt here).',
+            'TLA+ measure axioms with a rational bracket, code->spec trace validation of every mask value', 'DESIGN.md section 5 C03', 'overlap'),
+})
+
 PENDING_REASON = ('specification module for this property is designed in DESIGN.md but its TLA+ module and '
                   'conformance binding are not built yet; not claimed until they are')
 
@@ -297,6 +311,8 @@ ENGINES.append({'name': 'ds9', 'path': 'specs/Ds9.tla specs/MC_Ds9.tla specs/Ds9
                 'serves_properties': ['C09', 'C10'], 'kind_free_text': 'DS9 reader state machine and writer model, concretiser and tokenizer'})
 ENGINES.append({'name': 'crtf', 'path': 'specs/Crtf.tla specs/MC_Crtf.tla vf/crtftext.py vf/engines/c11.py',
                 'serves_properties': ['C11'], 'kind_free_text': 'CRTF reader/writer model with concretiser and tokenizer'})
+ENGINES.append({'name': 'overlap', 'path': 'specs/Overlap.tla specs/MC_Overlap.tla specs/Trace_Overlap.tla vf/engines/c03.py',
+                'serves_properties': ['C03'], 'kind_free_text': 'measure axioms for exact overlap masks'})
 NA = {}
 
 
